@@ -19,6 +19,7 @@
 #include <cstdint>
 #include <sstream>
 #include <memory>
+#include <functional>
 
 using namespace FEAT;
 using namespace FEAT::LAFEM;
@@ -402,6 +403,74 @@ static void do_cpmiss(Cur& c, std::ostream& o)
   o << "RESTORED "; dump(o, r);
 }
 
+// several containers written back to back into ONE stream / file with write_out(fm_binary, stream) and read back
+// in order with read_from(fm_binary, stream); njunk leading bytes give a non-zero start offset
+typedef std::function<void(std::istream&, std::ostream&)> MultiReader;
+
+template<typename CT_>
+static void multi_add(CT_&& obj, std::ostream& stream, std::vector<MultiReader>& readers)
+{
+  std::shared_ptr<CT_> a = std::make_shared<CT_>(std::move(obj));
+  a->write_out(FileMode::fm_binary, stream);
+  readers.push_back([a](std::istream& is, std::ostream& o)
+  {
+    CT_ r;
+    r.read_from(FileMode::fm_binary, is);
+    o << " P " << (long long)is.tellg() << " ";
+    dump(o, r);
+    o << " EQ " << (*a == r ? 1 : 0);
+  });
+}
+
+template<typename DT_, typename IT_>
+static void multi_one(Cur& c, const std::string& kind, std::ostream& stream, std::vector<MultiReader>& readers)
+{
+  typedef Kinds<DT_, IT_> K;
+  if(kind == "dv") multi_add(K::dv(c), stream, readers);
+  else if(kind == "dvb") multi_add(K::dvb(c), stream, readers);
+  else if(kind == "sv") multi_add(K::sv(c), stream, readers);
+  else if(kind == "dm") multi_add(K::dm(c), stream, readers);
+  else if(kind == "csr") multi_add(K::csr(c), stream, readers);
+  else if(kind == "bcsr") multi_add(K::bcsr(c), stream, readers);
+  else if(kind == "bm") multi_add(K::bm(c), stream, readers);
+  else if(kind == "cscr") multi_add(K::cscr(c), stream, readers);
+  else { std::cerr << "\n>>> FATAL ERROR: harness: unknown kind\n"; std::abort(); }
+}
+
+static void do_multi(Cur& c, std::ostream& o)
+{
+  Index use_file = c.idx(), njunk = c.idx(), k = c.idx();
+  std::vector<MultiReader> readers;
+  std::stringstream ss(std::ios::in | std::ios::out | std::ios::binary);
+  String fn = String("/tmp/verif_c05_multi_") + stringify(getpid()) + ".bin";
+  std::ofstream ofs;
+  if(use_file != 0) ofs.open(fn.c_str(), std::ios::binary | std::ios::trunc);
+  std::ostream& os = (use_file != 0) ? static_cast<std::ostream&>(ofs) : static_cast<std::ostream&>(ss);
+  for(Index i = 0; i < njunk; ++i) os.put(char((i * 37 + 11) & 0xFF));
+  for(Index i = 0; i < k; ++i)
+  {
+    std::string kind = c.str(); Index dt = c.idx();
+    if(dt == 8) multi_one<double, std::uint64_t>(c, kind, os, readers);
+    else multi_one<float, std::uint32_t>(c, kind, os, readers);
+  }
+  std::string content;
+  if(use_file != 0)
+  {
+    ofs.close();
+    std::ifstream f(fn.c_str(), std::ios::binary);
+    content.assign((std::istreambuf_iterator<char>(f)), std::istreambuf_iterator<char>());
+  }
+  else content = ss.str();
+  o << "B "; show_hex(o, content.data(), content.size());
+  std::ifstream ifs;
+  std::stringstream is(content, std::ios::in | std::ios::binary);
+  if(use_file != 0) ifs.open(fn.c_str(), std::ios::binary);
+  std::istream& in = (use_file != 0) ? static_cast<std::istream&>(ifs) : static_cast<std::istream&>(is);
+  in.seekg(std::streamoff(njunk), std::ios::beg);
+  for(auto& rd : readers) rd(in, o);
+  if(use_file != 0) { ifs.close(); ::remove(fn.c_str()); }
+}
+
 static void handle(const verif::Tokens& t, std::ostream& o)
 {
   // runs in the forked child: FEAT prints some warnings to std::cout, which must not reach the result stream
@@ -437,6 +506,10 @@ static void handle(const verif::Tokens& t, std::ostream& o)
   else if(op == "dfio")
   {
     do_dfio(c, o);
+  }
+  else if(op == "multi")
+  {
+    do_multi(c, o);
   }
   else if(op == "cpmiss")
   {
